@@ -20,7 +20,7 @@ from common import qlit, nlit
 import pylife.stress.collective  # noqa: F401  (registers the load_collective accessors)
 
 MANIFEST = dict(
-    text='Theorems (props/C14.v, 22, all closed under the global context) about a hand-written Gallina model over Q of LoadCollective '
+    text='Theorems (props/C14.v, 25, all closed under the global context) about a hand-written Gallina model over Q of LoadCollective '
          '(amplitude, meanstress, upper, lower, R with 0/0 -> 0, cycles, range/mean -> from/to, scale, shift), of the LoadHistogram class '
          'accessors (from/to matrix, range/mean matrix, class location, scale, shift skipping the range level), of numpy\'s class assignment '
          '(half-open classes, last one closed; 1-D and 2-D, weighted), of _do_rebin_histogram (overlap / source length over the overlapping '
@@ -28,7 +28,9 @@ MANIFEST = dict(
          'equivalence, scale/shift laws with untouched cycles, every value of the covered range in exactly one class and class counts summing to '
          'the cycles in the covered range, range histogram = marginal of the range/mean histogram when all means are covered, re-binning to a '
          'gap-free covering binning conserves the total (unbounded, telescoping of clipped overlaps), same binning = identity, composition through '
-         'a refinement (unbounded) and refutation of general composition, combine conserves the grand total; the single-class target binning '
+         'a refinement (unbounded) and refutation of general composition, histograms with several class levels (closed form of the level-wise '
+         'redistribution: conservation for any number of levels, one level = the 1-D model, independence of the level order), combine conserves '
+         'the grand total; the single-class target binning '
          'that today\'s validation refuses is stated as refuted + restricted theorem (known finding). The model is tied to the code by a '
          'vm_compute correspondence check on every observable and by the property relations evaluated on the implementation on every run.',
     note=common.TB_NOTE + 'all C14 theorems are closed under the global context. The model is hand-written: the correspondence harness '
@@ -39,13 +41,14 @@ MANIFEST = dict(
     technique='Coq proof over hand-written Gallina model (Q) + vm_compute correspondence + property relations on the implementation',
     design='6/C14')
 
-REQ = ['From PL Require Import Stress.Collective Stress.Histogram Stress.Rebin Stress.C14Check.', 'Open Scope Q_scope.']
+REQ = ['From PL Require Import Stress.Collective Stress.Histogram Stress.Rebin Stress.RebinND Stress.C14Check.', 'Open Scope Q_scope.']
 
 W_REBIN_SINGLE = 'rebin_histogram refuses a gap-free increasing covering binning'
 W_H2_SINGLE = 'histogram (range/mean) does not put the cycles into the requested single class'
 MUTATED = [0]
 W_RAISED = 'histogramming a collective raised for a valid bin specification'
 W_CYCLES = 'histogram class counts do not sum to the cycles of the collective (cycles column ignored)'
+W_INPLACE = 'scale/shift changes the collective it is applied to (result and collective are no longer related by the factor / offset)'
 
 
 # ------------------------------------------------------------------------------------------------ literals
@@ -157,6 +160,17 @@ def gen_index(rng, n):
     return {'names': ['node', 'element_id', 'cycle_number'], 'tuples': [[i % 2, 10 * (1 + (i // 2) % 2), i // 4] for i in range(n)]}
 
 
+def permute_levels(rng, ix):
+    """the same index entries with the levels listed in another order (the cycle axis is then not the last level); the library
+    addresses levels by name, so nothing may depend on the order"""
+    if ix is None or len(ix['names']) < 2:
+        return ix
+    perm = list(range(len(ix['names'])))
+    while perm == sorted(perm):
+        rng.shuffle(perm)
+    return {'names': [ix['names'][p] for p in perm], 'tuples': [[t[p] for p in perm] for t in ix['tuples']]}
+
+
 def gen_collective(rng, nmax=12, allow_cycles=True):
     n = rng.randint(1, nmax)
     form = rng.choice(['from_to', 'from_to', 'range_mean'])
@@ -169,7 +183,12 @@ def gen_collective(rng, nmax=12, allow_cycles=True):
     cyc = None
     if allow_cycles and rng.random() < 0.35:
         cyc = [float(rng.choice([1, 1, 2, 3, 10, 0.5, 1000000])) for _ in range(n)]
-    return {'form': form, 'a': a, 'b': b, 'cycles': cyc, 'index': gen_index(rng, n)}
+    c = {'form': form, 'a': a, 'b': b, 'cycles': cyc, 'index': gen_index(rng, n)}
+    if rng.random() < 0.25:
+        c['index'] = permute_levels(rng, c['index'])
+    if rng.random() < 0.2:
+        c['columns_reversed'] = True          # columns are addressed by name: to/from resp. (cycles,) mean, range
+    return c
 
 
 def gen_edges(rng, lo=0.0, hi=8.0, kmax=6, dyadic=True):
@@ -220,6 +239,8 @@ def make_frame(c):
     d = {cols[0]: [float(x) for x in c['a']], cols[1]: [float(x) for x in c['b']]}
     if c.get('cycles') is not None:
         d['cycles'] = [float(x) for x in c['cycles']]
+    if c.get('columns_reversed'):
+        d = {k: d[k] for k in reversed(list(d))}
     ix = c.get('index')
     index = None
     if ix is not None:
@@ -285,14 +306,14 @@ def operand_for_key(c, op, key):
 def rel_collective(case):
     """Returns (failures, coq_term, nontrivial).  failures: [(what, detail)]"""
     c, op = case['collective'], case.get('op')
-    fails = []
+    fails, info = [], {}
     df = make_frame(c)
     base = observe_collective(df.load_collective)
     n = len(c['a'])
     rowkeys = keys_of(df.index)
     ft = from_to_exact(c)
     if base['keys'] != rowkeys:
-        return [('collective lost or reordered rows', str(base['keys'][:4]))], None, False
+        return [('collective lost or reordered rows', str(base['keys'][:4]))], None, False, info
     # -- mutual consistency, and the definitions against the given from/to resp. range/mean
     for i in range(n):
         a, m, u, l, r, cy = (base[k][i] for k in ('amplitude', 'meanstress', 'upper', 'lower', 'R', 'cycles'))
@@ -358,8 +379,22 @@ def rel_collective(case):
                                                                 q(after['lower'][j]), oq(fin(after['R'][j])), q(after['cycles'][j])))
                 terms.append('check_frame %s %s %s %s' % (lit, q(after['from'][j]), q(after['to'][j]),
                                                          oq(None if after['cyc_col'] is None else after['cyc_col'][j])))
+        # -- the law relates the result to the collective: the collective itself (as the caller holds it: the frame and its accessor) is
+        #    what it was, and applying the same operand once more gives the same result
+        info['scalar_operand'] = not isinstance(op['operand'], dict)
+        now = observe_collective(df.load_collective)
+        changed = [k for k in ('from', 'to', 'amplitude', 'meanstress', 'cycles') if now[k] != base[k]] + ([] if before.equals(df) else ['caller frame'])
+        if changed or now['keys'] != base['keys']:
+            i = next((i for i in range(n) if now['amplitude'][i] != base['amplitude'][i] or now['meanstress'][i] != base['meanstress'][i]), 0)
+            fails.append((W_INPLACE, {'changed': changed, 'row': i, 'amplitude_before': base['amplitude'][i], 'amplitude_now': now['amplitude'][i],
+                                      'mean_before': base['meanstress'][i], 'mean_now': now['meanstress'][i]}))
+        lc2 = df.load_collective
+        again = observe_collective(lc2.scale(operand_of(c, op)) if op['kind'] == 'scale' else lc2.shift(operand_of(c, op)))
+        if not changed and any(again[k] != after[k] for k in ('keys', 'from', 'to', 'cycles')):
+            fails.append(('applying the same scale/shift to the same collective a second time gives a different result',
+                          {'first': (after['from'][:4], after['to'][:4]), 'second': (again['from'][:4], again['to'][:4])}))
     nontriv = n >= 2 and len({x > y for x, y in ft if x != y}) == 2          # both orientations occur
-    return fails, '(' + ' && '.join(terms + ['true']) + ')', nontriv
+    return fails, '(' + ' && '.join(terms + ['true']) + ')', nontriv, info
 
 
 def gen_collective_case(rng):
@@ -371,7 +406,7 @@ def gen_collective_case(rng):
         val = lambda: rng.choice([2.0, 0.5, -1.0, -1.5, 0.25, 3.0, 1.0]) if kind == 'scale' else rng.choice([1.0, -2.5, 0.25, 100.0, -0.5])
         ix = c['index']
         if ix is not None and len(ix['names']) >= 2 and rng.random() < 0.5:
-            level = rng.choice(ix['names'][:-1])
+            level = rng.choice([nm for nm in ix['names'] if nm != 'cycle_number'])
             pos = ix['names'].index(level)
             vals = sorted({t[pos] for t in ix['tuples']})
             op = {'kind': kind, 'operand': {'level': level, 'values': [[v, val()] for v in vals]}}
@@ -421,11 +456,11 @@ def rel_histogram(case):
     weighted = c.get('cycles') is not None and any(x != 1 for x in w_)
     groups, gnames = group_rows(c, axis)
     single = 'edges' in spec and len(spec['edges']) == 2
-    info = {'single_class': single, 'dim': dim, 'weighted': weighted, 'bins_kind': spec['kind'], 'axis': axis}
+    info = {'single_class': single, 'dim': dim, 'weighted': weighted, 'bins_kind': spec['kind'], 'axis': axis, 'extra_levels': len(gnames)}
     try:
         h = (lc.range_histogram(make_bins(spec), axis) if dim == 1 else lc.histogram(make_bins(spec), axis)).to_pandas()
     except Exception as e:
-        if dim == 2 and single:
+        if dim == 2 and single and not (axis is not None and not gnames):          # (no extra level: the grouping raised, not numpy)
             return [(W_H2_SINGLE, 'raised %r' % (e,))], None, False, info
         return [(W_RAISED, repr(e))], None, False, info
     lvl = ['range'] if dim == 1 else ['range', 'mean']
@@ -531,6 +566,8 @@ def gen_histogram_case(rng):
     axis = None
     if ix is not None and len(ix['names']) >= 2 and rng.random() < 0.7:
         axis = 'cycle_number'
+    elif ix is not None and len(ix['names']) == 1 and rng.random() < 0.5:
+        axis = 'cycle_number'          # along the only level (a rainflow collective): one group, the whole collective
     dim = rng.choice([1, 2])
     spec = gen_bins(rng, for_range=True)
     if dim == 2 and spec['kind'] != 'count':
@@ -611,9 +648,15 @@ def make_matrix(m):
         a, b = ('from', 'to') if kind == 'from_to' else ('range', 'mean')
         idx = pd.MultiIndex.from_arrays([pd.IntervalIndex.from_tuples([tuple(map(float, i)) for i in m[a]]),
                                          pd.IntervalIndex.from_tuples([tuple(map(float, i)) for i in m[b]])], names=[a, b])
+    if m.get('swapped') and kind != 'range':          # the class levels listed the other way round: (to, from) resp. (mean, range)
+        idx = idx.swaplevel(0, 1)
     if m.get('extra'):
-        arrays = [pd.Index(m['extra'], name='element_id')] + ([idx] if kind == 'range' else [idx.get_level_values(i) for i in range(2)])
-        idx = pd.MultiIndex.from_arrays(arrays, names=['element_id'] + list(idx.names))
+        arrays = [idx] if kind == 'range' else [idx.get_level_values(i) for i in range(2)]
+        names = list(idx.names)
+        pos = min(int(m.get('extra_pos', 0)), len(arrays))          # the extra level in front of, between or behind the class levels
+        arrays.insert(pos, pd.Index(m['extra'], name='element_id'))
+        names.insert(pos, 'element_id')
+        idx = pd.MultiIndex.from_arrays(arrays, names=names)
     return pd.Series([float(v) for v in m['values']], index=idx, name='cycles')
 
 
@@ -685,6 +728,8 @@ def rel_matrix(case):
                 return fails, None, False
             return fails + [('load histogram %s raised' % op['kind'], repr(e))], None, False
         after = observe_matrix(located(tp))
+        if not (s.equals(before) and s.index.equals(before.index) and list(s.index.names) == list(before.index.names)):
+            fails.append(('load histogram %s changes the histogram it is applied to' % op['kind'], None))
         if after['cycles'] != base['cycles']:
             fails.append(('load histogram %s changed the cycle counts' % op['kind'], (base['cycles'][:5], after['cycles'][:5])))
         fx = F(x)
@@ -727,6 +772,9 @@ def gen_matrix_case(rng):
         m['range'] = [fresh(lambda: gen_ivl(rng, nonneg=True)) for _ in range(n)]
     if rng.random() < 0.3:
         m['extra'] = [10 * (1 + i % 2) for i in range(n)]
+        m['extra_pos'] = rng.choice([0, 0, 1, 2])
+    if kind != 'range' and rng.random() < 0.3:
+        m['swapped'] = True
     op = None
     if rng.random() < 0.6:
         k = rng.choice(['scale', 'shift'])
@@ -970,6 +1018,181 @@ def gen_rebin2d_case(rng):
     return case
 
 
+# ------------------------------------------------------------------------------------------------ relation: rebin_histogram, any index layout
+W_ND_TOTAL = 'rebin_histogram of a multi-level histogram does not conserve the total for gap-free covering binnings'
+W_ND_CLASSES = 'rebin_histogram of a multi-level histogram: the classes of a level are not the binning requested for the level of that name'
+W_ND_SHARES = 'rebin_histogram of a multi-level histogram: class contents are not the overlap-proportional shares'
+W_ND_LEVELS = 'rebin_histogram of a multi-level histogram changes the index levels'
+W_ND_RAISED = 'rebin_histogram of a multi-level histogram raised for a valid target binning'
+W_ND_ORDER = 'rebin_histogram depends on the order in which the target levels are listed'
+
+
+def nd_source(case):
+    """the source histogram: interval levels case['names'] (+ optionally a non-interval level) in the stated level order, rows as listed"""
+    names, rows, extra = case['names'], case['rows'], case.get('extra')
+    arrays = [pd.IntervalIndex.from_tuples([tuple(map(float, r[1][d])) for r in rows]) for d in range(len(names))]
+    lvl = list(names)
+    if extra:
+        pos = min(int(extra['pos']), len(arrays))
+        arrays.insert(pos, pd.Index([r[0] for r in rows], name=extra['name']))
+        lvl.insert(pos, extra['name'])
+    return pd.Series([float(r[2]) for r in rows], index=pd.MultiIndex.from_arrays(arrays, names=lvl), name='cycles'), lvl
+
+
+def nd_target(tgt):
+    I = pd.IntervalIndex.from_breaks
+    if tgt['kind'] == 'single':
+        return I([float(x) for x in tgt['edges']])
+    if tgt['kind'] == 'count':
+        return int(tgt['n'])
+    order = tgt['order']
+    mi = pd.MultiIndex.from_product([I([float(x) for x in tgt['edges'][nm]]) for nm in order], names=order)
+    if tgt.get('rows') is not None:          # the same classes, built from tuples in another row order
+        mi = pd.MultiIndex.from_tuples([mi[i] for i in tgt['rows']], names=order)
+    return mi
+
+
+def key_lit(k):
+    return '[' + '; '.join(ivl(i) for i in k) + ']'
+
+
+def rel_rebin_nd(case):
+    """rebin_histogram on a MultiIndex histogram: every interval level is re-binned to the binning the target gives for the level OF THAT
+    NAME, whatever the order of the levels in the source and in the target, extra non-interval levels are kept.  Exact expectation: the
+    redistribution is separable, contents = sum over the source classes of value * product over the levels of the overlap share."""
+    from pylife.utils.histogram import rebin_histogram
+    names, rows, extra, tgt = case['names'], case['rows'], case.get('extra'), case['target']
+    s, lvl = nd_source(case)
+    info = {'levels': lvl, 'target_kind': tgt['kind'], 'target_order': tgt.get('order')}
+    fails = []
+    with warnings.catch_warnings():
+        warnings.simplefilter('ignore')
+        try:
+            out = rebin_histogram(s, nd_target(tgt))
+        except Exception as e:
+            return [(W_ND_RAISED, repr(e))], None, False, info
+    if list(out.index.names) != lvl:
+        return [(W_ND_LEVELS, (list(out.index.names), lvl))], None, False, info
+    src = {}
+    for r in rows:
+        src.setdefault(r[0], []).append((tuple((F(i[0]), F(i[1])) for i in r[1]), F(r[2])))
+    span = [(min(F(r[1][d][0]) for r in rows), max(F(r[1][d][1]) for r in rows)) for d in range(len(names))]
+    if tgt['kind'] == 'count':
+        want = [breaks([lo + F(i, tgt['n']) * (hi - lo) for i in range(tgt['n'] + 1)]) for lo, hi in span]
+    elif tgt['kind'] == 'single':
+        want = [breaks([F(x) for x in tgt['edges']])] * len(names)
+    else:
+        want = [breaks([F(x) for x in tgt['edges'][nm]]) for nm in names]
+    covers = all(w[0][0] <= lo and hi <= w[-1][1] for w, (lo, hi) in zip(want, span))
+    info['covers'] = covers
+    got = {}
+    for k, v in zip(out.index, out.values):
+        k = dict(zip(lvl, k))
+        got.setdefault(k[extra['name']] if extra else None, []).append((tuple((F(k[nm].left), F(k[nm].right)) for nm in names), float(v)))
+    if sorted(got, key=repr) != sorted(src, key=repr):
+        return [(W_ND_LEVELS, ('groups', sorted(got, key=repr), sorted(src, key=repr)))], None, False, info
+    terms = []
+    for g, h in src.items():
+        o = got[g]
+        bad_cls = [(names[d], (float(k[d][0]), float(k[d][1]))) for k, _ in o for d in range(len(names))
+                   if not any(close(k[d][0], w[0]) and close(k[d][1], w[1]) for w in want[d])]
+        ncls, nsrc = 1, 1
+        for d, w in enumerate(want):
+            ncls *= len(w)
+            nsrc *= len({k[d] for k, _ in h})
+        full = len(h) == len({k for k, _ in h}) == nsrc          # the source lists the complete product of its classes
+        if bad_cls or len({k for k, _ in o}) != len(o) or (full and len(o) != ncls):
+            fails.append((W_ND_CLASSES, {'group': g, 'unrequested': bad_cls[:3], 'classes': len(o), 'requested_classes': ncls,
+                                         'requested': {nm: [float(w[0][0])] + [float(x[1]) for x in w] for nm, w in zip(names, want)}}))
+            continue
+        total, tot_out = sum((v for _, v in h), F(0)), sum(v for _, v in o)
+        if covers and not close(tot_out, float(total)):
+            fails.append((W_ND_TOTAL, {'group': g, 'total': float(total), 'rebinned_total': tot_out}))
+            continue
+        for k, v in o:
+            e = F(0)
+            for sk, sv in h:
+                wgt = sv
+                for d in range(len(names)):
+                    if not o_overlaps(sk[d], k[d]):
+                        wgt = F(0)
+                        break
+                    wgt *= (min(k[d][1], sk[d][1]) - max(k[d][0], sk[d][0])) / (sk[d][1] - sk[d][0])
+                e += wgt
+            if not close(v, e):
+                fails.append((W_ND_SHARES, {'group': g, 'class': [[float(x) for x in i] for i in k], 'content': v, 'expected': float(e)}))
+                break
+        terms.append('check_rebin_nd [%s] [%s]' % ('; '.join('(%s, %s)' % (key_lit(k), q(v)) for k, v in h),
+                                                   '; '.join('(%s, %s)' % (key_lit(k), q(v)) for k, v in o)))
+    # -- the same target described with its levels in the source's own order gives the same histogram
+    if tgt['kind'] == 'multi' and not fails:
+        with warnings.catch_warnings():
+            warnings.simplefilter('ignore')
+            ref = rebin_histogram(s, nd_target({'kind': 'multi', 'order': list(names), 'edges': tgt['edges']}))
+        a, b = sorted(zip(map(repr, out.index), out.values)), sorted(zip(map(repr, ref.index), ref.values))
+        if [x for x, _ in a] != [x for x, _ in b] or not all(close(x[1], y[1]) for x, y in zip(a, b)):
+            fails.append((W_ND_ORDER, {'target_order': tgt['order'], 'levels': lvl}))
+    nontriv = (tgt['kind'] == 'multi' and covers and [nm for nm in tgt['order']] != list(names)
+               and len({json.dumps(tgt['edges'][nm]) for nm in names}) == len(names))
+    return fails, ' && '.join(terms) if terms else None, nontriv, info
+
+
+def gen_rebin_nd_case(rng):
+    nd = rng.choice([2, 2, 2, 3])
+    names = list(rng.choice([['range', 'mean'], ['mean', 'range'], ['from', 'to'], ['to', 'from']])) + (['temperature'] if nd == 3 else [])
+    edges = []
+    for nm in names:
+        edges.append(gen_chain(rng, lo=0.0 if nm == 'range' else dy(rng, -4, 2), kmax=3 if nd == 2 else 2))
+    keys = [[]]
+    for e in edges:
+        keys = [k + [list(i)] for k in keys for i in breaks(e)]
+    extra = None
+    groups = [None]
+    if rng.random() < 0.3:
+        extra = {'name': 'element_id', 'pos': rng.choice([0, 0, 1, nd])}
+        groups = [10, 20]
+    rows = [[g, k, float(rng.choice([0, 1, 2, 3, 5, 7, 0.5, 1000]))] for g in groups for k in keys]
+    r = rng.random()
+    sparse = False
+    if r < 0.3:
+        rng.shuffle(rows)                                   # rows not in product order
+    elif r < 0.45 and len(rows) > 2:
+        rows = [x for x in rows if rng.random() < 0.7] or rows[:1]      # a histogram that does not list its empty classes
+        sparse = True
+    span = {nm: (min(x[1][d][0] for x in rows), max(x[1][d][1] for x in rows)) for d, nm in enumerate(names)}
+    r = rng.random()
+    if r < 0.1 and not sparse:
+        tgt = {'kind': 'count', 'n': rng.choice([1, 2, 3, 5])}
+    elif r < 0.2:
+        lo, hi = min(v[0] for v in span.values()), max(v[1] for v in span.values())
+        tgt = {'kind': 'single', 'edges': sorted({lo, hi} | {lo + (hi - lo) * rng.random() for _ in range(rng.randint(1, 3))})}
+    else:
+        te = {}
+        for nm in names:
+            lo, hi = span[nm]
+            lo, hi = lo - rng.choice([0, 0, 0.5]), hi + rng.choice([0, 0, 0.25, 2.0])
+            if rng.random() < 0.1:
+                lo += 0.125                                  # does not cover: contents are still the shares
+            k = rng.choice([0, 1, 2, 3, 4])                 # (k = 0: a single class)
+            te[nm] = sorted({lo, hi} | {round(lo + (hi - lo) * rng.random(), rng.choice([1, 2, 6])) for _ in range(k)})
+            te[nm] = [x for x in te[nm] if lo <= x <= hi]
+        order = list(names)
+        if rng.random() < 0.6:
+            while order == list(names):
+                rng.shuffle(order)
+        tgt = {'kind': 'multi', 'order': order, 'edges': te}
+        if rng.random() < 0.25:
+            n = 1
+            for nm in names:
+                n *= len(te[nm]) - 1
+            tgt['rows'] = list(range(n))
+            rng.shuffle(tgt['rows'])
+    case = {'rel': 'rebin_nd', 'names': names, 'rows': rows, 'target': tgt}
+    if extra:
+        case['extra'] = extra
+    return case
+
+
 # ------------------------------------------------------------------------------------------------ relation: combine_histogram
 def rel_combine(case):
     from pylife.utils.histogram import combine_histogram
@@ -982,12 +1205,20 @@ def rel_combine(case):
         else:
             idx = pd.MultiIndex.from_arrays([pd.IntervalIndex.from_tuples([tuple(map(float, k[0])) for k, _ in h]),
                                              pd.IntervalIndex.from_tuples([tuple(map(float, k[1])) for k, _ in h])], names=['range', 'mean'])
+        if dim == 2 and case.get('swapped') and case['swapped'][len(series)]:
+            idx = idx.swaplevel(0, 1)          # this member lists its levels as (mean, range)
         series.append(pd.Series([float(v) for _, v in h], index=idx, dtype=float))
     out = combine_histogram(series)
     fails = []
     total = sum(float(v) for h in hs for _, v in h)
     if not close(out.values.sum() if len(out) else 0.0, total):
         fails.append(('combine_histogram(sum) does not conserve the grand total', (total, float(out.values.sum()))))
+    if dim == 2 and case.get('swapped') and len(set(case['swapped'])) == 2:
+        # members with differently ordered levels: combine_histogram accepts them (it compares the SET of level names) and joins them
+        # by position; the property only demands the grand total here (see notes/build/C14.md, Observations)
+        return fails, None, False
+    if dim == 2 and len(out) and list(out.index.names) == ['mean', 'range']:
+        out = out.swaplevel(0, 1)
     exp = {}
     for h in hs:
         for k, v in h:
@@ -1020,14 +1251,18 @@ def gen_combine_case(rng):
         hs.append([[[list(i) for i in k], float(rng.choice([0, 1, 2, 3, 5, 0.5, 12, 1000]))] for k in sorted(ks)])
     if dim == 2 or rng.random() < 0.5:
         hs = [h for h in hs if h] or [[[[list(pool[0])] * dim, 1.0]]]
-    return {'rel': 'combine', 'hists': hs, 'dim': dim}
+    case = {'rel': 'combine', 'hists': hs, 'dim': dim}
+    if dim == 2 and rng.random() < 0.3:
+        case['swapped'] = [rng.random() < 0.5 for _ in hs]
+    return case
 
 
 # ------------------------------------------------------------------------------------------------ dispatch
 RELS = {'collective': rel_collective, 'histogram': rel_histogram, 'recorder': rel_recorder, 'matrix': rel_matrix,
-        'rebin': rel_rebin, 'rebin_chain': rel_rebin_chain, 'rebin2d': rel_rebin2d, 'combine': rel_combine}
+        'rebin': rel_rebin, 'rebin_chain': rel_rebin_chain, 'rebin2d': rel_rebin2d, 'rebin_nd': rel_rebin_nd, 'combine': rel_combine}
 GENS = {'collective': gen_collective_case, 'histogram': gen_histogram_case, 'recorder': gen_recorder_case, 'matrix': gen_matrix_case,
-        'rebin': gen_rebin_case, 'rebin_chain': gen_rebin_chain_case, 'rebin2d': gen_rebin2d_case, 'combine': gen_combine_case}
+        'rebin': gen_rebin_case, 'rebin_chain': gen_rebin_chain_case, 'rebin2d': gen_rebin2d_case, 'rebin_nd': gen_rebin_nd_case,
+        'combine': gen_combine_case}
 
 
 def evaluate(case):
@@ -1045,6 +1280,9 @@ def register_classes(res):
     res.classes['histogram2d_count_bins_along_axis'] = lambda d: (d.get('case', {}).get('rel') == 'histogram' and d.get('info', {}).get('dim') == 2
                                                                    and d.get('info', {}).get('bins_kind') == 'count' and d.get('info', {}).get('axis') is not None
                                                                    and 'stack' in str(d.get('detail')))
+    res.classes['histogram_axis_is_only_level'] = lambda d: (d.get('case', {}).get('rel') == 'histogram' and d.get('info', {}).get('axis') is not None
+                                                              and d.get('info', {}).get('extra_levels') == 0 and 'No group keys' in str(d.get('detail')))
+    res.classes['collective_scalar_operand'] = lambda d: (d.get('case', {}).get('rel') == 'collective' and d.get('info', {}).get('scalar_operand') is True)
     res.classes['collective_with_cycles_column'] = lambda d: (d.get('case', {}).get('rel') == 'histogram' and d.get('info', {}).get('weighted') is True)
 
 
@@ -1075,17 +1313,21 @@ def run(res):
                         'histogram classes are right-closed pandas intervals (interval_range / from_breaks default); source classes of a re-binning '
                         'have positive length; no NaN class contents',
                         'Series operands of scale/shift are indexed by one level of the collective (general broadcasting is C13)']
-    res.cov['rule'] = ('8 seeded case families (collective accessors with scale/shift and scalar / per-level Series operands over RangeIndex, single and '
-                       '2-3 level MultiIndex, from/to and range/mean, optional cycles column; range and range/mean histograms with bins = count / edges / '
+    res.cov['rule'] = ('9 seeded case families (collective accessors with scale/shift and scalar / per-level Series operands over RangeIndex, single and '
+                       '2-3 level MultiIndex with the cycle axis at any level position, from/to and range/mean with the columns in either order, optional '
+                       'cycles column; range and range/mean histograms with bins = count / edges / '
                        'IntervalIndex / IntervalArray / single class / [x, y] pair, with and without group axis; recorder from/to histogram; LoadHistogram '
                        'class accessors with class location and scale/shift; rebin_histogram to irregular, single-class, refining, non-covering and invalid '
-                       'binnings and bins = n, nan_default; same-binning identity and two-step composition; two-dimensional re-binning; combine_histogram). '
+                       'binnings and bins = n, nan_default; same-binning identity and two-step composition; two-dimensional re-binning; re-binning of 2-3 class '
+                       'levels in any level order to a MultiIndex target with its own level order and one binning per level name, extra non-interval level '
+                       'at any position, shuffled / incomplete source rows; combine_histogram, also of members with differently ordered levels). '
                        'non-trivial = collective with both loop orientations / histogram with >= 2 classes and a cycle exactly on a class edge / '
-                       're-binning of >= 2 classes to >= 2 covering classes / composition through a strict refinement / combine with a shared class; '
+                       're-binning of >= 2 classes to >= 2 covering classes / composition through a strict refinement / multi-level re-binning to a covering '
+                       'target that lists its levels in another order than the histogram with pairwise different binnings / combine with a shared class; '
                        'counted distinct by case content')
     common.standard_proof_stage(res, 'C14', extra_targets=['theories/Stress/C14Check.vo'])
 
-    counts = dict(collective=150, histogram=220, recorder=50, matrix=90, rebin=260, rebin_chain=60, rebin2d=25, combine=60)
+    counts = dict(collective=150, histogram=220, recorder=50, matrix=90, rebin=260, rebin_chain=60, rebin2d=25, rebin_nd=60, combine=60)
     if not quick:
         counts = {k: v * 8 for k, v in counts.items()}
     cases = corpus_cases()
